@@ -384,7 +384,10 @@ def enum_of(ctx, shape, cls):
     if shape == "eu":
         if has_lt_or_ty(ctx.g):
             return None
-        return mk_enum(ctx, [("unit", []), ("unit", [])])
+        it = mk_enum(ctx, [("unit", []), ("unit", [])])
+        if ctx.rng.random() < 0.3:
+            it.variants[ctx.rng.randrange(2)].disc = "7"      # explicit discriminant on a field-less enum
+        return it
     if shape == "e1":
         ts = pick_types(ctx, 2, cls, distinct=True)
         return mk_enum(ctx, [("tuple", [ts[0]]), ("named", [ts[1]]), ("unit", [])])
@@ -448,6 +451,8 @@ for d in FMT_TRAITS:
     VARIANTS[d] += [("ew", "shared-wrap"), ("ew", "shared-wrap-arg"), ("ew", "shared-wrap-all-own"), ("ed", "shared-default"),
                     ("ed", "shared-default-all"), ("es", "none"), ("e0", "none"), ("es", "shared-wrap"), ("n0", "none"),
                     ("t0", "none"), ("ew", "bound-enum")]
+for d in FMT_TRAITS:
+    VARIANTS[d] += [("t1", "fmt-debug")]
 VARIANTS["Display"] += [("eu", "rename_all"), ("eu", "rename_all-variant"), ("unit", "fmt-unit"), ("esu", "none")]
 VARIANTS["Deref"] = [("t1", "none"), ("n1", "none"), ("t1", "forward"), ("n1", "forward"), ("t2", "marker"),
                      ("n2", "marker")]
@@ -750,6 +755,12 @@ def b_fmt_common(c, ctx, trait, an, cls):
         it.attrs.append('#[%s(rename_all = "kebab-case")]' % an)
         if c.attr == "rename_all-variant":
             it.variants[1].attrs.append('#[%s(rename_all = "SCREAMING_SNAKE_CASE")]' % an)
+    elif c.attr == "fmt-debug":
+        # another formatting trait inside the literal: the bound must follow the placeholder, not the derived trait
+        it = struct_of(ctx, c.shape, "debug")
+        if it is None:
+            return None
+        it.attrs.append('#[%s("{_0:?} and {:?}", _0)]' % an)
     elif c.attr == "fmt-unit":
         it = struct_of(ctx, "unit", cls)
         if it is None:
